@@ -281,7 +281,7 @@ def run(F, R, tier):
                         while bl["k"] in ("copy", "move") and seen < 8:
                             seen += 1
                             nm = B.locals[bl["p"]["l"]].get("name")
-                            if nm:
+                            if nm and not nm.startswith("<"):   # `<helper>param`: the parameter of a helper analysed in place
                                 maps.add("var:" + nm)
                                 break
                             d = B.single_def(bl["p"]["l"])
@@ -291,6 +291,33 @@ def run(F, R, tier):
                             bl = rv["o"] if rv["k"] in ("use", "cast") else {"k": "copy", "p": rv["p"]} if rv["k"] == "ref" else {"k": "const"}
                     if q.ends(w, "VacantEntry::insert"):
                         inserts += 1
+                    # the entry API spelling: .and_modify(|c| c.count += 1).or_insert_with(|| summary.into())
+                    if q.ends(w, "Entry::and_modify", "Entry::or_insert_with") and len(t["args"]) == 2:
+                        for o in B.origins(t["args"][1]):
+                            cf_ = F.fns.get(o[1]) if o[0] == "agg" else None
+                            if cf_ is None:
+                                incs.append(("unreadable-closure", None))
+                                continue
+                            Bc = mir.Body(cf_, F)
+                            R.touched(cf_["id"])
+                            if q.ends(w, "Entry::and_modify"):
+                                for cb_ in Bc.blocks:
+                                    for s in cb_["stmts"]:
+                                        if s["k"] == "assign" and s["rv"]["k"] == "bin" and s["rv"]["op"] in ("Add", "AddWithOverflow", "AddUnchecked"):
+                                            a, c = s["rv"]["a"], s["rv"]["b"]
+                                            incs.append((mir.field_names(a["p"]) if a["k"] in ("copy", "move") else (), c.get("val") if c["k"] == "const" else None))
+                                        elif s["k"] == "assign" and s["rv"]["k"] == "bin" and s["rv"]["op"] in ("Sub", "SubWithOverflow", "Mul", "MulWithOverflow"):
+                                            incs.append(("other-arith", s["rv"]["op"]))
+                            else:
+                                ro = Bc.origins({"l": 0, "p": []})
+                                conv = any(q.ends(v, "into", "from") for v in Bc.via({"l": 0, "p": []}))
+                                if ro and all((x[0] == "call" and q.ends(x[1], "into", "from")) or (conv and x[0] == "param") for x in ro):
+                                    inserts += 1
+                    if q.ends(w, "Entry::or_insert") and len(t["args"]) == 2:
+                        ro = B.origins(t["args"][1])
+                        conv = any(q.ends(v, "into", "from") for v in B.via(t["args"][1]))
+                        if ro and (conv or all(x[0] == "call" and q.ends(x[1], "into", "from") for x in ro)):
+                            inserts += 1
                 for s in B.blocks[b]["stmts"]:
                     if s["k"] == "assign" and s["rv"]["k"] == "bin" and s["rv"]["op"] in ("Add", "AddWithOverflow", "AddUnchecked"):
                         a, c = s["rv"]["a"], s["rv"]["b"]
@@ -308,6 +335,43 @@ def run(F, R, tier):
             # key = summary.to_key_string()
             ks = [b for b in mine if B.blocks[b]["term"]["k"] == "call" and q.ends(mir.callee_of(B.blocks[b]["term"])[0], "ProxySummary::to_key_string")]
             R.check(len(ks) == 1, "C11.R4", "C11.R4:%s:key" % act["id"], "-", "the map key is ProxySummary::to_key_string() of the received summary")
+        # the summary maps change only where a record is added (Add* arms) or the 24-hour clear runs: handing the records to a reader
+        # must not consume them (drain / take / remove in a Get* arm loses every denial counted so far at the next publication)
+        def map_var(bl):
+            seen = 0
+            while bl["k"] in ("copy", "move") and seen < 10:
+                seen += 1
+                nm = B.locals[bl["p"]["l"]].get("name")
+                if nm and not nm.startswith("<"):
+                    return nm
+                d = B.single_def(bl["p"]["l"])
+                if not d or d[2] != "assign":
+                    return None
+                rv = d[3]["rv"]
+                bl = rv["o"] if rv["k"] in ("use", "cast") else {"k": "copy", "p": rv["p"]} if rv["k"] == "ref" else {"k": "const"}
+            return None
+        READS = ("iter", "values", "keys", "len", "is_empty", "get", "contains_key", "clone", "deref", "into_iter", "borrow", "as_ref")
+        allowed = {"AddOneFailedConnectionSummary": ("entry", "get_mut", "insert"), "AddOneConnectionSummary": ("entry", "get_mut", "insert"),
+                   "ClearAllSummary": ("clear",)}
+        n_acc = 0
+        for bi, w, r, t in B.calls:
+            if not t["args"] or w == mir.POLL:
+                continue
+            for a in t["args"]:
+                mv = map_var(a)
+                if mv not in ("failed_authenticate_summary", "proxy_summary"):
+                    continue
+                short_ = q.base_name(w or "").rsplit("::", 1)[-1]
+                n_acc += 1
+                if short_ in READS and "mem::" not in (w or ""):
+                    continue
+                in_arms = [n for n, a_ in arms.items() if bi in a_[2] and all(bi not in o_[2] for m_, o_ in arms.items() if m_ != n)]
+                ok_ = any(short_ in allowed.get(n, ()) for n in in_arms)
+                R.check(ok_, "C11.R4", R.key("C11.R4", act["id"], "map-mutation:%s:%s" % (mv, short_)), q.where(B, bi),
+                        "%s.%s() is part of adding a record / of the periodic clear" % (mv, short_),
+                        "%s is modified by %s() in the %s arm: reading or publishing the summary consumes the records, so denials counted "
+                        "so far vanish from the next status" % (mv, short_, "/".join(in_arms) or "?"))
+        R.floor("C11.R4", n_acc, 4, "accesses to the two summary maps in the actor loop")
         # single writer: the map is a local of the actor task
         R.check(any(l.get("name") == "failed_authenticate_summary" for l in B.locals), "C11.R4", "C11.R4:%s:map-is-task-local" % act["id"], "-",
                 "failed_authenticate_summary is a local of the single actor task (single writer => no lost update)")
